@@ -541,6 +541,51 @@ def r06_5(rep: Report) -> None:
         raise AnalysisError('calculate_segment_number_and_time: no SegmentNumberAndTime return on the static path')
 
 
+def r06_6(rep: Report) -> None:
+    """a static SegmentTimeline describes the stored fragments: on every path of
+    generateSegmentTimeline whose condition implies a static mode, the duration stored into an S
+    entry is exactly the duration of a stored fragment - the live-only correction (drift between this
+    track and the timing reference) contributes 0."""
+    from ..core import lin_atoms
+    from ..flow import Disjunctive
+    from ..pathcond import PathCond, entails as pc_entails, f_not, satisfiable, f_and, show as pc_show, sym_values
+    rid = 'R06.6'
+    tree = rep.repo.tree(REP)
+    cls = need(find_class(tree, 'Representation'), 'Representation')
+    fn = need(find_func(cls, 'generateSegmentTimeline'), 'generateSegmentTimeline')
+    c = f'{REP}::Representation.generateSegmentTimeline'
+    upd, resolve = sym_values(max_len=400)
+    pcd = PathCond(subst={'timing': 'self._timing'}, upd=upd)
+    live = ('atom', "self._timing.mode == 'live'")
+    seen = [0]
+    bad: list = []
+
+    def on_stmt(st, states):
+        if not (isinstance(st, ast.Assign) and len(st.targets) == 1 and isinstance(st.targets[0], ast.Attribute)
+                and st.targets[0].attr == 'duration'):
+            return
+        for state in states:
+            if pc_entails(state[0], f_not(live)) is not True:
+                continue                    # a live path (or undetermined): the correction is allowed there
+            seen[0] += 1
+            v = resolve(state, st.value)
+            form = lin_atoms(v)
+            stored = [k for k in form if re.fullmatch(r'self\.segments\[[^\]]+\]\.duration', k)]
+            if len(form) == 1 and len(stored) == 1 and form[stored[0]] == 1:
+                continue
+            bad.append((st, norm(v), pc_show(state[0])))
+    Flow(Disjunctive(pcd, cap=256), on_stmt=on_stmt).run(fn, [PathCond.initial()])
+    if not seen[0]:
+        raise AnalysisError('generateSegmentTimeline: no S duration is stored on a static path')
+    if not bad:
+        rep.ok(rid, c, 'static S@d is the stored fragment duration', f'{seen[0]} static path(s) to the store')
+    else:
+        st, v, pc = bad[0]
+        rep.fail(rid, c, 'static S@d is the stored fragment duration',
+                 f'on a static path ({pc[:80]}) the S entry gets duration `{v[:100]}`, not the stored fragment\'s '
+                 'duration: a static manifest then mis-describes the (unmodified) stored media', st)
+
+
 def analyse(rep: Report) -> None:
     rep.explanation = (
         'Conventions that the static manifests and the media endpoint must share: the inclusive '
@@ -552,9 +597,11 @@ def analyse(rep: Report) -> None:
     rep.rule('R06.2', 'declared static duration comes from the timing reference only', floor=11)
     rep.rule('R06.3', 'numbers outside first..last are refused on every path', floor=3)
     rep.rule('R06.5', 'static addressing: number and file index differ by start_number - 1', floor=2)
+    rep.rule('R06.6', 'a static SegmentTimeline lists the stored fragment durations (no live correction)', floor=1)
     rep.rule('R06.4', 'indexer clock: start = previous end or tfdt, end = start + sample durations', floor=6)
     r06_1(rep)
     r06_2(rep)
     r06_3(rep)
     r06_4(rep)
     r06_5(rep)
+    r06_6(rep)
